@@ -321,12 +321,7 @@ def _file_part(fpart, case, ctx):
                     for name, fn in PARSERS:
                         c2 = _total(ctx, name, fn, line, "torn-line", repro)
                         ctx.state([kind, name, c2])
-                okf, _ = call(Ranking.from_file, path)
-                if not okf and not isinstance(_, ValueError):
-                    ctx.violate("C18/parser-failure-mode", {"parser": "Ranking.from_file", "text": stored[:200],
-                                                            "raised": f"{exc_label(_)}: {str(_)[:120]}"},
-                                "parsed, or refused with ValueError", {"parser": "Ranking.from_file",
-                                                                       "exc": exc_label(_)}, "torn-file")
-                    ctx.violations[-1]["case_override"] = repro
+                c3 = _total(ctx, "Ranking.from_file", lambda _t: Ranking.from_file(path), stored, "torn-file", repro)
+                ctx.state([kind, "Ranking.from_file", c3])
     finally:
         fs.uninstall()
